@@ -1498,6 +1498,144 @@ Proof.
 Qed.
 
 (* ------------------------------------------------------------------ *)
+(** * S13: length push-down *)
+
+Definition lenref (e t : expr) : Prop :=
+  (forall rho o, bind (den rho e) o_len = Some o -> bind (den rho t) o_len = Some o) /\
+  (forall k, bind (schema e) k_len = Some k -> bind (schema t) k_len = Some k).
+
+Lemma lenref_trans : forall a b c, lenref a b -> lenref b c -> lenref a c.
+Proof. intros a b c [H1 H2] [H3 H4]. split; eauto. Qed.
+
+Lemma reach_or : forall e x t (b : bool), lenref e x -> (b = true -> lenref x t) ->
+  expr_eqb x t || b = true -> lenref e t.
+Proof.
+  intros e x t b Hex Hb H. apply orb_true_iff in H. destruct H as [H|H].
+  - apply expr_eqb_eq in H. subst. exact Hex.
+  - eapply lenref_trans; [exact Hex|auto].
+Qed.
+
+Lemma o_len_map : forall f X, o_len (o_map f X) = o_len X.
+Proof. intros f [cs rows|rows| |]; simpl; try reflexivity; rewrite map_length; reflexivity. Qed.
+
+Lemma o_len_proj : forall c X Y, o_proj c X = Some Y -> o_len Y = o_len X.
+Proof.
+  intros c X Y H. apply o_proj_inv in H. destruct H as (cs & rows & -> & _ & _ & ->).
+  simpl. rewrite map_length. reflexivity.
+Qed.
+Lemma o_len_projs : forall c X Y, o_projs c X = Some Y -> o_len Y = o_len X.
+Proof.
+  intros c [cs rows| | |] Y H; simpl in H; try discriminate.
+  destruct (memb c cs); [|discriminate]. inversion H; subst. simpl. rewrite map_length. reflexivity.
+Qed.
+Lemma o_len_assign : forall k X V Y, o_assign k X V = Some Y -> o_len Y = o_len X.
+Proof.
+  intros k [cs rows| | |] [|vs| |] Y H; simpl in H; try discriminate.
+  destruct (list_eqb (rids rows) (rids vs)) eqn:E; [|discriminate]. inversion H; subst.
+  apply list_eqb_eq in E. apply rids_length in E. simpl. rewrite map2_length by exact E. reflexivity.
+Qed.
+Lemma o_len_rename : forall m X Y, o_rename m X = Some Y -> o_len Y = o_len X.
+Proof.
+  intros m [cs rows| | |] Y H; simpl in H; try discriminate.
+  destruct (nodupb (map (ren m) cs)); [|discriminate]. inversion H; subst. reflexivity.
+Qed.
+Lemma o_len_bin : forall f X Y Z, o_bin f X Y = Some Z -> is_coll (Some (kind_of X)) = true ->
+  o_len Z = o_len X.
+Proof.
+  intros f [cs1 r1|r1|c1|] [cs2 r2|r2|c2|] Z H Hc; simpl in Hc; try discriminate;
+    simpl in H; try discriminate.
+  - destruct (list_eqb cs1 cs2 && list_eqb (rids r1) (rids r2)) eqn:E; [|discriminate].
+    apply andb_true_iff in E. destruct E as [_ E]. apply list_eqb_eq in E. apply rids_length in E.
+    inversion H; subst. simpl. rewrite map2_length by exact E. reflexivity.
+  - inversion H; subst. simpl. rewrite map_length. reflexivity.
+  - destruct (list_eqb (rids r1) (rids r2)) eqn:E; [|discriminate].
+    apply list_eqb_eq in E. apply rids_length in E.
+    inversion H; subst. simpl. rewrite map2_length by exact E. reflexivity.
+  - inversion H; subst. simpl. rewrite map_length. reflexivity.
+Qed.
+
+Ltac lenref_unary lem :=
+  split;
+  [ let rho := fresh "rho" in let ov := fresh "ov" in
+    intros rho ov H; cbn [den] in H;
+    apply bind_Some in H; destruct H as (Y & HY & H);
+    apply bind_Some in HY; destruct HY as (X & HX & HY);
+    rewrite HX; cbn [bind];
+    first [ erewrite <- lem by exact HY; exact H
+          | inversion HY; subst Y; rewrite o_len_map in H; exact H ]
+  | ].
+
+Lemma lenref_Proj : forall x cs, lenref (Proj x cs) x.
+Proof.
+  intros x cs. lenref_unary o_len_proj.
+  intros k H. cbn [schema] in H. destruct (schema x) as [[xs| | |]|]; try discriminate.
+  cbn [bind k_proj] in H. destruct (nodupb cs && subsetb cs xs); [|discriminate]. exact H.
+Qed.
+Lemma lenref_ProjS : forall x c, lenref (ProjS x c) x.
+Proof.
+  intros x c. lenref_unary o_len_projs.
+  intros k H. cbn [schema] in H. destruct (schema x) as [[xs| | |]|]; try discriminate.
+  cbn [bind k_projs] in H. destruct (memb c xs); [|discriminate]. exact H.
+Qed.
+Lemma lenref_BinL : forall o x z, lenref (BinL o x z) x.
+Proof. intros o x z. lenref_unary o_len_proj. intros k H. exact H. Qed.
+Lemma lenref_BinR : forall o z x, lenref (BinR o z x) x.
+Proof. intros o z x. lenref_unary o_len_proj. intros k H. exact H. Qed.
+Lemma lenref_Un : forall u x, lenref (Un u x) x.
+Proof. intros u x. lenref_unary o_len_proj. intros k H. exact H. Qed.
+Lemma lenref_Fillna : forall x z, lenref (Fillna x z) x.
+Proof. intros x z. lenref_unary o_len_proj. intros k H. exact H. Qed.
+Lemma lenref_Rename : forall x m, lenref (Rename x m) x.
+Proof.
+  intros x m. lenref_unary o_len_rename.
+  intros k H. cbn [schema] in H. destruct (schema x) as [[xs| | |]|]; try discriminate.
+  cbn [bind k_rename] in H. destruct (nodupb (map (ren m) xs)); [|discriminate]. exact H.
+Qed.
+Lemma lenref_Assign : forall x k v, lenref (Assign x k v) x.
+Proof.
+  intros x k v. split.
+  - intros rho o H. cbn [den] in H. inv_bind H. inv_bind Ha. inv_bind Ha.
+    rewrite Ha0. cbn [bind]. erewrite <- o_len_assign by eassumption. exact H.
+  - intros k0 H. cbn [schema] in H.
+    destruct (schema x) as [[xs| | |]|]; cbn [bind] in *; try discriminate;
+      destruct (schema v) as [[| | |]|]; simpl in H; try discriminate; exact H.
+Qed.
+Lemma lenref_Bin : forall o x y, is_coll (schema x) = true -> lenref (Bin o x y) x.
+Proof.
+  intros o x y Hc. split.
+  - intros rho o' H. cbn [den] in H. inv_bind H. inv_bind Ha. inv_bind Ha.
+    rewrite Ha0. cbn [bind]. erewrite <- o_len_bin; [exact H|exact Ha|].
+    rewrite <- (schema_sound _ _ _ Ha0). exact Hc.
+  - intros k H. cbn [schema] in H. destruct (schema x) as [[xs| | |]|]; try discriminate;
+      cbn [bind] in *; destruct (schema y) as [[ys| | |]|]; try discriminate;
+      cbn [k_bin bind k_len] in *; try exact H.
+    destruct (list_eqb xs ys); [exact H|discriminate].
+Qed.
+
+Lemma len_reach_sound : forall t e, len_reach t e = true -> lenref e t.
+Proof.
+  intros t. induction e; intros H; cbn [len_reach] in H; try discriminate.
+  - eapply reach_or; [apply lenref_Proj|exact IHe|exact H].
+  - eapply reach_or; [apply lenref_ProjS|exact IHe|exact H].
+  - eapply reach_or; [apply lenref_BinL|exact IHe|exact H].
+  - eapply reach_or; [apply lenref_BinR|exact IHe|exact H].
+  - apply andb_true_iff in H. destruct H as [Hc H].
+    eapply reach_or; [apply lenref_Bin; exact Hc|exact IHe1|exact H].
+  - eapply reach_or; [apply lenref_Un|exact IHe|exact H].
+  - eapply reach_or; [apply lenref_Fillna|exact IHe|exact H].
+  - eapply reach_or; [apply lenref_Assign|exact IHe1|exact H].
+  - eapply reach_or; [apply lenref_Rename|exact IHe|exact H].
+Qed.
+
+Lemma s13_sound : forall p r, s13_ok p r = true -> refines p r /\ spres p r.
+Proof.
+  intros p r H. unfold s13_ok in H. destruct p; try discriminate. destruct r; try discriminate.
+  apply len_reach_sound in H. destruct H as [H1 H2]. split.
+  - intros rho o. cbn [den]. apply H1.
+  - intros k. cbn [schema]. apply H2.
+Qed.
+
+(* ------------------------------------------------------------------ *)
 (** * Main theorems *)
 
 Lemma rule_ok_both : forall p r, rule_ok p r = true -> refines p r /\ spres p r.
@@ -1510,6 +1648,7 @@ Proof.
     destruct (s7a_ok p r) eqn:E7; [apply s7a_sound; exact E7|].
     destruct (s9_ok p r) eqn:E9; [apply s9_sound; exact E9|].
     destruct (s10_ok p r) eqn:E10; [apply s10_sound; exact E10|].
+    destruct (s13_ok p r) eqn:E13; [apply s13_sound; exact E13|].
     discriminate.
   - apply push_sound. congruence.
 Qed.
@@ -1627,6 +1766,30 @@ Example ex_s10 : accepted 10 (Filter (Filter T0 p1) q1)
 Proof. accept. Qed.
 Example ex_s10_value :
   den rho0 (Filter (Filter T0 p1) q1) = Some (OFrame [0; 1; 2] [(1, [zc 4; zc 5; None])]).
+Proof. vm_compute. reflexivity. Qed.
+Example ex_s13 : accepted 13 (RLen (Proj (Filter T0 pr0) [1])) (RLen (Filter T0 pr0)).
+Proof. accept. Qed.
+Example ex_s13_value : den rho0 (RLen (Filter T0 pr0)) = Some (OScalar (zc 2)).
+Proof. vm_compute. reflexivity. Qed.
+Example ex_s13_series : accepted 13 (RLen (BinL BAdd (ProjS T0 1) 1)) (RLen (ProjS T0 1)).
+Proof. accept. Qed.
+Example ex_s13_assign : accepted 13 (RLen (Assign T0 5 v0)) (RLen T0).
+Proof. accept. Qed.
+Example ex_s13_bin : accepted 13 (RLen (Bin BAdd (ProjS T0 0) (ProjS T0 1))) (RLen (ProjS T0 0)).
+Proof. accept. Qed.
+Example ex_s13_multi : accepted 13 (RLen (Un UIsNa (Fillna (Rename (Proj T0 [0; 1]) [(0, 7)]) 0))) (RLen T0).
+Proof. accept. Qed.
+(* filters are not length preserving *)
+Example reject_len_through_filter : rule_ok (RLen (Filter T0 pr0)) (RLen T0) = false
+  /\ den rho0 (RLen (Filter T0 pr0)) = Some (OScalar (zc 2))
+  /\ den rho0 (RLen T0) = Some (OScalar (zc 3)).
+Proof. vm_compute. repeat split; reflexivity. Qed.
+Example reject_len_through_filter_deep :
+  rule_ok (RLen (Proj (Filter T0 pr0) [1])) (RLen T0) = false.
+Proof. vm_compute. reflexivity. Qed.
+(* a broadcast scalar on the left of Bin has no length: not accepted *)
+Example reject_len_bin_scalar_left :
+  rule_ok (RLen (Bin BAdd (RSum (ProjS T0 0)) (ProjS T0 1))) (RLen (RSum (ProjS T0 0))) = false.
 Proof. vm_compute. reflexivity. Qed.
 (* a step used inside a bigger plan *)
 Example ex_in_context :
